@@ -340,6 +340,16 @@ fn helper(name: &str, s: &mut Sites) -> Item {
             ),
             Shape::T(vec![Shape::F, Shape::F]),
         ),
+        // `self` of a nested tuple type: the cell is wider than its number of members
+        "cnt3" => fdef(
+            "cnt3",
+            &["p"],
+            block(
+                vec![S::Let(Pat::Tuple(vec![Pat::Tuple(vec![Pat::Var("a".into()), Pat::Var("b".into())]), Pat::Var("c".into())]), E::SelfV)],
+                E::Tuple(vec![E::Tuple(vec![bin("+", var("a"), p()), bin("+", var("b"), var("a"))]), bin("+", var("c"), num(1.0))]),
+            ),
+            Shape::T(vec![Shape::T(vec![Shape::F, Shape::F]), Shape::F]),
+        ),
         "m" => fdef("m", &["p"], E::Mem(Box::new(p()), s.next()), Shape::F),
         "dS" => fdef("dS", &["p"], E::Delay(3.0, Box::new(p()), Box::new(num(1.0)), s.next()), Shape::F),
         "dL" => fdef("dL", &["p"], E::Delay(10.0, Box::new(p()), Box::new(num(5.0)), s.next()), Shape::F),
@@ -364,7 +374,7 @@ fn helper(name: &str, s: &mut Sites) -> Item {
         _ => unreachable!("{name}"),
     }
 }
-const FS_HELPERS: [&str; 13] = ["cnt", "cnt2", "m", "dS", "dL", "two", "nest", "nestd", "br", "pure", "deep", "ph", "gamp"];
+const FS_HELPERS: [&str; 14] = ["cnt", "cnt2", "m", "dS", "dL", "two", "nest", "nestd", "br", "pure", "deep", "ph", "gamp", "cnt3"];
 fn helper_deps(name: &str) -> &'static [&'static str] {
     match name {
         "nest" | "nestd" | "br" => &["cnt"],
@@ -460,6 +470,12 @@ fn fs_stmt(c: &mut Ctx, mut o: u64) -> Option<()> {
             c.stmts.push(S::Let(Pat::Tuple(vec![Pat::Var(p.clone()), Pat::Var(q.clone())]), call(h, vec![a], site)));
             c.vars.push(p);
             c.vars.push(q);
+        } else if h == "cnt3" {
+            let (p, q, r) = (c.fresh(), c.fresh(), c.fresh());
+            c.stmts.push(S::Let(Pat::Tuple(vec![Pat::Tuple(vec![Pat::Var(p.clone()), Pat::Var(q.clone())]), Pat::Var(r.clone())]), call(h, vec![a], site)));
+            c.vars.push(p);
+            c.vars.push(q);
+            c.vars.push(r);
         } else {
             let v = c.fresh();
             c.stmts.push(let_(&v, call(h, vec![a], site)));
@@ -887,7 +903,7 @@ fn mkcounter() -> Item {
 
 // ================================================================== FA: aggregates
 
-const FA_RADIX: u64 = 44;
+const FA_RADIX: u64 = 46;
 pub fn fa_count(k: u32) -> u64 {
     seq_count(FA_RADIX, k)
 }
@@ -1095,6 +1111,20 @@ fn fa_stmt(c: &mut ACtx, o: u64) -> Option<()> {
             let e = E::Record(vec![("<-".into(), var(&r)), ("b".into(), bin("+", c.f(0)?, num(300.0))), ("a".into(), c.f(2)?)]);
             c.push(v, ATy::Rec, e, "{record <- b = .., a = ..}".into());
         }
+        44 => {
+            // a default value that refers to the parameter to its left
+            c.need("defb");
+            let v = c.fresh("p");
+            let s = c.sites.next();
+            c.push(v, ATy::F, E::CallPack("defb".into(), vec![("a".into(), c.f(0)?)], s), "defb({a = a}) with fn defb(a, b = a * 2)".into());
+        }
+        45 => {
+            // a default value that is a closed expression with operators and a builtin call
+            c.need("defc");
+            let v = c.fresh("p");
+            let s = c.sites.next();
+            c.push(v, ATy::F, E::CallPack("defc".into(), vec![("a".into(), c.f(0)?)], s), "defc({a = a}) with fn defc(a, b = 1 + cos(0) * 2)".into());
+        }
         40 => {
             let v = c.fresh("t");
             c.push(v, ATy::T1, E::Tuple(vec![c.f(0)?]), "one-element tuple (a,)".into());
@@ -1207,6 +1237,18 @@ pub fn fa_decode(idx: u64, k: u32) -> Option<Gen> {
                 name: "defa".into(),
                 params: vec![("p".into(), Some(num(2.0))), ("q".into(), Some(num(3.0)))],
                 body: bin("+", bin("*", var("p"), num(10.0)), bin("+", var("q"), E::SelfV)),
+                ret: Shape::F,
+            })),
+            "defb" => items.push(Item::Fn(FnDef {
+                name: "defb".into(),
+                params: vec![("a".into(), None), ("b".into(), Some(bin("*", var("a"), num(2.0))))],
+                body: bin("+", bin("*", var("a"), num(10.0)), var("b")),
+                ret: Shape::F,
+            })),
+            "defc" => items.push(Item::Fn(FnDef {
+                name: "defc".into(),
+                params: vec![("a".into(), None), ("b".into(), Some(bin("+", num(1.0), bin("*", E::Math("cos".into(), vec![num(0.0)]), num(2.0)))))],
+                body: bin("+", bin("*", var("a"), num(10.0)), var("b")),
                 ret: Shape::F,
             })),
             "pick" => items.push(fdef(
@@ -1805,6 +1847,9 @@ pub fn features(p: &Prog) -> Vec<String> {
                 });
                 if one_word {
                     add("one_word_aggregate");
+                }
+                if p.items.iter().any(|it| matches!(it, Item::Fn(g) if g.name == "defb")) {
+                    add("default_refers_to_parameter");
                 }
                 walk(&f.body, &mut |x| match x {
                     E::Call(n, args, _) => {
